@@ -143,7 +143,8 @@ def param_taints(p, fmt=None):
          sentence (the scanner then takes `X word` as the default) - formats that carry the description as prose;
       U2 a type-hint trigger word meets an EXPLICIT default (the prose-derived type re-types the default one round
          late; with a negative number the function emitters then write un-parseable code);
-      U3 `dictionary of` - class / pydantic (the probe of the guessed type raises on the second round).
+      U3 `dictionary of` - class / pydantic (the probe of the guessed type raises on the second round);
+      U4 a default fragment on a parameter whose declared type is not int / float / str (Literal, bool, List ...).
     Default fragments at the end of a sentence / after a comma and trigger words without a default are STRICT."""
     import re
 
@@ -154,6 +155,10 @@ def param_taints(p, fmt=None):
         m = DEFAULT_FRAGMENT.search(doc)
         if m and (m.start() == 0 or re.match(r"\s+\w", doc[m.end():])):
             t.add("P47")
+        typ = p.get("typ") or ""
+        inner = typ[9:-1] if is_optional(typ) else typ
+        if m and inner not in ("int", "float", "str"):
+            t.add("P47")  # U4: the fragment's value meets a declared type it cannot belong to (Literal, bool, List ...)
         if any(tr in low for tr in TYPE_TRIGGERS) and "default" in p:
             t.add("P47")
         if "dictionary of" in low and fmt in (None, "class", "pydantic"):
